@@ -29,6 +29,10 @@ CLAIMED = {
          "The V2000 reader's graph equals the reference decoding and the paired V3000 reading; both get the same TUCAN string.", "§4 C08"),
  "C09": ("TLC bounded model of the 71+dash wrap (every length 0..300, probe characters at the cut columns) + trace validation: every written text is decoded by the specification and compared with the graph; read-back by the real reader; round-trip strings",
          "Line length, well-formedness, atoms in listing order with element / charge / radical / mass / six-decimal coordinates, bonds with types, for graphs whose line lengths are steered across the wrap columns (once, twice, three times) and for graphs not listed in label order.", "§4 C09"),
+ "C10": ("TLC bounded model of the single-token edit neighbourhood judged by the EBNF reference reader (Grammar.tla) + spec->code replay of every enumerated string + trace validation of structured / character-level edits and parse histories",
+         "Accept / reject, the exception type and the returned graph (atoms by increasing atomic number, bond set, attributes) of the real parser are compared by TLC with Denote(s) for every string of the enumerated neighbourhoods and for seeded edits of library-emitted strings, including re-parsing after the returned graph was edited in place.", "§4 C10"),
+ "C11": ("TLC bounded model of respelling walks (molecule kept, normal form reached, all by the specification incl. the bliss contract) + spec->code replay + trace validation of seeded respelling walks on library strings",
+         "Each respelling is verified by TLC on the denotations through its index map; the real parse -> canonicalize -> serialize must return one string per class of verified respellings, and applying it twice must change nothing.", "§4 C11"),
 }
 checks = []
 for p in props:
